@@ -1216,18 +1216,20 @@ def check_pure(ctx: Any) -> None:
             ctx.mismatch(cid, m, impl, "_content_length_from_content_range: model vs implementation")
 
 
-def check_chunk_range(ctx: Any) -> None:
+def check_chunk_range(ctx: Any, only: dict[str, Any] | None = None) -> None:
     """`_content_range_mismatch` (the check added by the fix): K against the model, O against its one-line spec."""
     from vgi_rpc.external_fetch import _content_range_mismatch
 
     rng = ctx.rng
     cases: list[tuple[str | None, int, int, int | None]] = []
-    for cr in [None, "", "bytes 0-9/100", "bytes 0-9/*", "bytes 0-9/101", "bytes 1-9/100", "bytes 0-8/100", " bytes  0-9/100 ", "bytes 0-9/100\n",
+    if only is not None:
+        cases.append((only["s"], only["start"], only["stop"], only["total"]))
+    for cr in [] if only is not None else [None, "", "bytes 0-9/100", "bytes 0-9/*", "bytes 0-9/101", "bytes 1-9/100", "bytes 0-8/100", " bytes  0-9/100 ", "bytes 0-9/100\n",
                "bytes 0-9/ 100", "bytes 0-9/1e2", "bytes 00-09/0100", "bytes ٠-٩/١٠٠", "Bytes 0-9/100", "bytes */100", "bytes 0-9", "garbage",
                "bytes 0-9/**", "bytes 0-9/*1", "bytes 0-9/" + "1" * 4301, "bytes " + "0" * 4301 + "-9/100", "bytes 0-9/100 x", "bytes=0-9/100"]:
         for total in (100, None, 0):
             cases.append((cr, 0, 9, total))
-    for _ in range(ctx.budget(300, 5000)):
+    for _ in range(0 if only is not None else ctx.budget(300, 5000)):
         s0, e0, t0 = rng.choice([0, 5, 10]), rng.choice([9, 10, 99]), rng.choice([100, 10, 0])
         base = list(f"bytes {rng.choice([s0, s0 + 1])}-{rng.choice([e0, e0 - 1])}/{rng.choice([str(t0), str(t0 + 1), '*'])}")
         for _ in range(rng.choice([0, 0, 1, 2])):
@@ -1309,60 +1311,73 @@ class _FakeResp:
         self.content = _FakeContent(segs, fail)
 
 
-def check_readers(ctx: Any) -> None:
-    import asyncio
-
+def run_reader_case(ctx: Any, loop: Any, cid: dict[str, Any], segs: list[bytes]) -> tuple[tuple[str, Any], dict[str, Any], int]:
     from vgi_rpc.external_fetch import FetchConfig, _read_range_response_body, _read_response_body
+
+    ranged, fail, max_fetch, expected = cid["ranged"], cid["fail"], cid["maxFetch"], cid["expected"]
+    cfg = FetchConfig(max_fetch_bytes=max_fetch)
+    resp = _FakeResp(list(segs), fail)
+    try:
+        if ranged:
+            data = loop.run_until_complete(_read_range_response_body(resp, expected, cfg))  # type: ignore[arg-type]
+        else:
+            data = loop.run_until_complete(_read_response_body(resp, cfg))  # type: ignore[arg-type]
+        val: dict[str, Any] = {"ok": data.hex()}
+    except BaseException as e:  # noqa: BLE001
+        val = canon_exc(e)
+    taken = resp.content.taken
+    ctx.case(cid, nontrivial=True, tags=("k:reader-range" if ranged else "k:reader-full", "reader:ok" if "ok" in val else f"reader:{val['err']}"))
+    bound = (min(expected, max_fetch) + 1) if ranged else (max_fetch + 65536)
+    if taken > bound:
+        ctx.fail(cid, f"C31:read-bound:{'range' if ranged else 'full'}", f"reader took {taken} bytes, bound {bound}")
+    if "ok" in val and bytes.fromhex(val["ok"]) != b"".join(segs):
+        ctx.fail(cid, "C31:wrong-bytes", "reader returned something other than the whole body")
+    if "ok" in val and ranged and len(b"".join(segs)) != expected:
+        ctx.fail(cid, "C31:wrong-bytes", "range reader accepted a body of the wrong size")
+    a: dict[str, Any] = {"maxFetch": max_fetch, "segs": [b2j(s) for s in segs]}
+    if fail:
+        a["fault"] = "other"
+    if ranged:
+        a["expected"] = expected
+    return ("C31.readRange" if ranged else "C31.readBody", a), val, taken
+
+
+def reader_segs(sizes: list[int]) -> list[bytes]:
+    return [bytes([(i * 37 + 1) % 256]) * k for i, k in enumerate(sizes)]
+
+
+def check_readers(ctx: Any, only: dict[str, Any] | None = None) -> None:
+    import asyncio
 
     rng = ctx.rng
     reqs = []
     cases = []
     loop = asyncio.new_event_loop()
     try:
-        for _ in range(ctx.budget(160, 4000)):
-            total = rng.choice([0, 1, 2, 10, 100, 100, 1000, 3000, 65535, 65536, 65537, 70000, 140000])
-            segs = []
-            left = total
-            while left > 0:
-                k = min(left, rng.choice([1, 2, 7, 100, 4096, 65535, 65536, 65537, 100000]))
-                if len(segs) >= 12:
-                    k = left
-                segs.append(bytes([rng.randrange(256)]) * k)
-                left -= k
-                if rng.random() < 0.1:
-                    segs.append(b"")
-            fail = rng.random() < 0.15
-            max_fetch = rng.choice([0, 1, total - 1, total, total + 1, 65536, 1 << 20]) if total else rng.choice([0, 1, 10])
-            max_fetch = max(0, max_fetch)
-            ranged = rng.random() < 0.55
-            expected = max(0, rng.choice([total, total, total - 1, total + 1, 1, 0, 70000]))
-            cfg = FetchConfig(max_fetch_bytes=max_fetch)
-            resp = _FakeResp(list(segs), fail)
-            try:
-                if ranged:
-                    data = loop.run_until_complete(_read_range_response_body(resp, expected, cfg))  # type: ignore[arg-type]
-                else:
-                    data = loop.run_until_complete(_read_response_body(resp, cfg))  # type: ignore[arg-type]
-                val: dict[str, Any] = {"ok": data.hex()}
-            except BaseException as e:  # noqa: BLE001
-                val = canon_exc(e)
-            taken = resp.content.taken
-            cid = {"kind": "reader", "ranged": ranged, "sizes": [len(s) for s in segs], "fail": fail, "maxFetch": max_fetch,
-                   "expected": expected if ranged else None}
-            ctx.case(cid, nontrivial=True, tags=("k:reader-range" if ranged else "k:reader-full", "reader:ok" if "ok" in val else f"reader:{val['err']}"))
-            bound = (min(expected, max_fetch) + 1) if ranged else (max_fetch + 65536)
-            if taken > bound:
-                ctx.fail(cid, f"C31:read-bound:{'range' if ranged else 'full'}", f"reader took {taken} bytes, bound {bound}")
-            if "ok" in val and bytes.fromhex(val["ok"]) != b"".join(segs):
-                ctx.fail(cid, "C31:wrong-bytes", "reader returned something other than the whole body")
-            if "ok" in val and ranged and len(segs and b"".join(segs)) != expected:
-                ctx.fail(cid, "C31:wrong-bytes", "range reader accepted a body of the wrong size")
-            a: dict[str, Any] = {"maxFetch": max_fetch, "segs": [b2j(s) for s in segs]}
-            if fail:
-                a["fault"] = "other"
-            if ranged:
-                a["expected"] = expected
-            reqs.append(("C31.readRange" if ranged else "C31.readBody", a))
+        todo: list[dict[str, Any]] = [only] if only is not None else []
+        if only is None:
+            for _ in range(ctx.budget(160, 4000)):
+                total = rng.choice([0, 1, 2, 10, 100, 100, 1000, 3000, 65535, 65536, 65537, 70000, 140000])
+                sizes: list[int] = []
+                left = total
+                while left > 0:
+                    k = min(left, rng.choice([1, 2, 7, 100, 4096, 65535, 65536, 65537, 100000]))
+                    if len(sizes) >= 12:
+                        k = left
+                    sizes.append(k)
+                    left -= k
+                    if rng.random() < 0.1:
+                        sizes.append(0)
+                fail = rng.random() < 0.15
+                max_fetch = rng.choice([0, 1, total - 1, total, total + 1, 65536, 1 << 20]) if total else rng.choice([0, 1, 10])
+                max_fetch = max(0, max_fetch)
+                ranged = rng.random() < 0.55
+                expected = max(0, rng.choice([total, total, total - 1, total + 1, 1, 0, 70000]))
+                todo.append({"kind": "reader", "ranged": ranged, "sizes": sizes, "fail": fail, "maxFetch": max_fetch,
+                             "expected": expected if ranged else None})
+        for cid in todo:
+            req, val, taken = run_reader_case(ctx, loop, cid, reader_segs(cid["sizes"]))
+            reqs.append(req)
             cases.append((cid, val, taken))
         if ctx.driver is not None:
             for (cid, val, taken), m in zip(cases, ctx.driver.batch(reqs)):
@@ -1451,7 +1466,11 @@ def replay(ctx: Any, case: dict[str, Any]) -> None:
                 m = ctx.driver.call("C31.contentRange", {"s": s2j(case["s"])})
                 if m != impl2:
                     ctx.mismatch(case, m, impl2, "_content_length_from_content_range: model vs implementation")
+        elif k == "reader":
+            check_readers(ctx, only=case)
+        elif k == "chunk-range":
+            check_chunk_range(ctx, only=case)
         else:
-            ctx.note("replay", f"case kind {k!r} is replayed by re-running with the same VERIF_SEED")
+            ctx.note("replay", f"unknown case kind {k!r}")
     finally:
         _teardown()
